@@ -228,6 +228,7 @@ struct HObj {
 	File* base() { return f ? f : (File*)t; }
 };
 static HObj* hs[4] = { 0, 0, 0, 0 };
+static bool haveFull = false;       // /dev/full is a character device that can be opened for writing
 static long pver[4] = { 0, 0, 0, 0 };
 
 static void dropHandle(int i)
@@ -402,6 +403,12 @@ static std::string stepOld(const Toks& t)
 		if (p < 0 || k < 0 || k > (1 << 26)) return "bad-op";
 		return showBytes(File(P(p)).firstBytes((int)k));
 	}
+	if ((op == "copy" || op == "move") && t.size() == 3 && t[2] == "full") {
+		int p = parsePath(t[1]);
+		if (p < 0) return "bad-op";
+		if (!haveFull) return "err nofull";
+		return b01(op == "copy" ? Directory::copy(P(p), "/dev/full") : Directory::move(P(p), "/dev/full"));
+	}
 	if ((op == "copy" || op == "move") && t.size() == 3) {
 		int p = parsePath(t[1]), q = parsePath(t[2]);
 		if (p < 0 || q < 0) return "bad-op";
@@ -476,6 +483,72 @@ static std::string stepOld(const Toks& t)
 		}
 		if (op == "xreopen") r += " " + rawStr(0);
 		return r;
+	}
+	if (op == "xwlines" && t.size() == 2) {
+		// TextFile: write through the object, then lines() of the same object, text(), lines() twice more
+		if (!parseBytes(t[1], bs)) return "bad-op";
+		unlink(pathOf(0).c_str());
+		Exact e(bs);
+		TextFile f(P(0));
+		f.write(S(e));
+		std::string r = showLines(f.lines());
+		f.close();
+		f.text();
+		r += " | " + showLines(f.lines());
+		r += " | " + showLines(f.lines());
+		return r;
+	}
+	if (op == "xreadwrite" && t.size() == 4) {
+		// a whole-file reader, then a lazily opening writer, on one object that was never opened explicitly
+		std::string b1, b2;
+		if (!parseBytes(t[2], b1) || !parseBytes(t[3], b2)) return "bad-op";
+		bool isT = t[1] == "t";
+		if (!isT && t[1] != "f") return "bad-op";
+		if (!rawWrite(pathOf(0), b1)) return "err rawput";
+		Exact e2(b2);
+		bool ok;
+		if (isT) { TextFile f(P(0)); f.text(); f.lines(); ok = f.append(S(e2)); }
+		else { File f(P(0)); f.content(); f.firstBytes(1); ok = f.put(ByteArray((const byte*)e2.p, (int)e2.n)); }
+		return b01(ok) + " " + rawStr(0);
+	}
+	if (op == "xobjcopy" && t.size() == 4) {
+		// File::copy and File::move of an object that still holds unflushed writes
+		if (!parseBytes(t[3], bs)) return "bad-op";
+		bool isT = t[1] == "t";
+		if (!isT && t[1] != "f") return "bad-op";
+		unlink((root1 + "/d2/a").c_str());
+		if (!rootx.empty()) unlink((rootx + "/d2/a").c_str());
+		if (t[2] == "1" && rootx.empty()) return "err nodev";
+		xdev = t[2] == "1";
+		unlink(pathOf(0).c_str()); unlink(pathOf(1).c_str());
+		Exact e(bs);
+		std::string r;
+		{
+			File* f = isT ? 0 : new File(P(0));
+			TextFile* tf = isT ? new TextFile(P(0)) : 0;
+			File* o = isT ? (File*)tf : f;
+			if (isT) tf->write(S(e)); else f->put(ByteArray((const byte*)e.p, (int)e.n));
+			bool okc = o->copy(P(1));
+			r = b01(okc);
+			r += " " + rawStr(1);
+			if (isT) tf->write(S(e)); else f->put(ByteArray((const byte*)e.p, (int)e.n));     // goes on writing after the copy
+			bool okm = o->move(P(2));
+			r += " " + b01(okm);
+			delete f;
+			delete tf;
+		}
+		struct stat sb;
+		return r + " " + rawStr(2) + " src=" + b01(stat(pathOf(0).c_str(), &sb) == 0);
+	}
+	if (op == "xfull" && t.size() == 2) {
+		// a destination that accepts no byte: copy must not report success, move must keep the source
+		if (!parseBytes(t[1], bs)) return "bad-op";
+		if (!haveFull) return "err nofull";
+		if (!rawWrite(pathOf(0), bs)) return "err rawput";
+		bool okc = Directory::copy(P(0), "/dev/full");
+		bool okm = Directory::move(P(0), "/dev/full");
+		std::string r = b01(okc) + " " + b01(okm);
+		return r + " " + rawStr(0);
 	}
 	if ((op == "xstale" || op == "xstalesize") && t.size() == 4) {
 		// an object asks size(), the file is then replaced through a temporary; what does the object say afterwards?
@@ -639,44 +712,55 @@ static std::string hstep(const Toks& t)
 		o->base()->lastModified();
 		return "ok";
 	}
-	if ((op == "hcontent" && t.size() == 2) || (op == "htext" && t.size() == 2) || (op == "hfirst" && t.size() == 3)) {
-		// whole-file readers: work on a closed object (which they open for reading) and on an open one in any mode
-		if (op == "htext" && !o->t) return "err kind";
+	if ((op == "hcontent" && t.size() == 2) || (op == "htext" && t.size() == 2) || (op == "hlines" && t.size() == 2) || (op == "hfirst" && t.size() == 3)) {
+		// whole-file readers: an object that is not open opens, reads and closes; an open one (any mode) flushes and
+		// reads through a temporary
+		if ((op == "htext" || op == "hlines") && !o->t) return "err kind";
 		if (dirtyOther(hi, p)) return "err dirty";
 		std::string r;
 		if (op == "hcontent") r = showBytes(o->base()->content());
 		else if (op == "htext") r = showBytes(o->t->text());
+		else if (op == "hlines") r = showLines(o->t->lines());
 		else {
 			long long k = num(t[2]);
 			if (k < 0 || k > (1 << 26)) return "bad-op";
 			r = showBytes(o->base()->firstBytes((int)k));
 		}
+		if (!!*o->base() != (o->mode >= 0)) return "err open-state-changed " + r;   // they leave the object as it was
 		if (o->mode >= 0) o->dirty = false;                     // they flushed the object
-		else if (!!*o->base()) { o->mode = 0; o->ver = pver[p]; if (op == "htext") o->spent = true; }
-		if (op != "hfirst") o->poisoned = false;                // content()/text() of a closed object discard the cache; an open one does not use it
+		else o->poisoned = false;                               // they discarded the cache (close() / _info.clear())
 		return r;
 	}
-	if ((op == "hr" && t.size() == 3) || (op == "hlines" && t.size() == 2)) {
-		// readers that continue from the object's own position
-		if (op == "hlines" && !o->t) return "err kind";
+	if (op == "hr" && t.size() == 3) {
+		// read() continues from the object's own position
 		if (o->mode >= 1) return "err mode";
-		if (op == "hr" && o->mode < 0) return "err closed";
+		if (o->mode < 0) return "err closed";
 		if (pathDirty(p)) return "err dirty";
-		if (o->spent) return "err spent";
-		if (o->mode == 0 && o->ver != pver[p]) return "err stale";
-		std::string r;
-		if (op == "hr") {
-			long long k = num(t[2]);
-			if (k < 0 || k > (1 << 26)) return "bad-op";
-			char* buf = (char*)malloc(k ? (size_t)k : 1);
-			int n = o->base()->read(buf, (int)k);
-			r = showBytes(buf, n);
-			free(buf);
-		}
-		else r = showLines(o->t->lines());
-		if (o->mode < 0 && !!*o->base()) { o->mode = 0; o->ver = pver[p]; }
-		if (op == "hlines" && o->mode == 0) o->spent = true;
+		if (o->ver != pver[p]) return "err stale";
+		long long k = num(t[2]);
+		if (k < 0 || k > (1 << 26)) return "bad-op";
+		char* buf = (char*)malloc(k ? (size_t)k : 1);
+		int n = o->base()->read(buf, (int)k);
+		std::string r = showBytes(buf, n);
+		free(buf);
 		return r;
+	}
+	if ((op == "hcopy" || op == "hmove") && t.size() == 3) {
+		// File::copy / File::move of the object (to a path, or to /dev/full)
+		bool full = t[2] == "full";
+		int q = full ? -1 : parsePath(t[2]);
+		if (!full && q < 0) return "bad-op";
+		if (full && !haveFull) return "err nofull";
+		for (int i = 0; i < 4; i++) {
+			if (!hs[i] || hs[i]->mode < 0) continue;
+			if ((i != hi && hs[i]->path == p) || (!full && hs[i]->path == q && i != hi)) return "err busy";
+		}
+		String to = full ? String("/dev/full") : P(q);
+		bool ok = op == "hcopy" ? o->base()->copy(to) : o->base()->move(to);
+		if (op == "hcopy") { if (o->mode >= 0) o->dirty = false; }
+		else { if (!!*o->base()) return "err still-open"; if (o->mode >= 0) o->poisoned = false; o->mode = -1; o->dirty = false; pver[p]++; }
+		if (!full) pver[q]++;
+		return b01(ok);
 	}
 	return "bad-op";
 }
@@ -685,7 +769,7 @@ static std::string step(const Toks& t)
 {
 	const std::string& op = t[0];
 	static const char* hops[] = { "hnew", "hopen", "hclose", "hflush", "hw", "happ", "hput", "hsh", "hsize", "hexists", "hisfile",
-		"hisdir", "hmtime", "hcontent", "hfirst", "hr", "htext", "hlines", 0 };
+		"hisdir", "hmtime", "hcontent", "hfirst", "hr", "htext", "hlines", "hcopy", "hmove", 0 };
 	for (int i = 0; hops[i]; i++) if (op == hops[i]) { closeSess(); return hstep(t); }
 	// observations through temporaries leave the persistent objects alone; everything else closes them first
 	bool obs = op == "raw" || op == "size" || op == "content" || op == "text" || op == "lines" || op == "exists" || op == "first";
@@ -700,6 +784,7 @@ static std::string step(const Toks& t)
 int main()
 {
 	crcInit();
+	{ struct stat sf; haveFull = stat("/dev/full", &sf) == 0 && S_ISCHR(sf.st_mode) && access("/dev/full", W_OK) == 0; }
 	if (!setupDirs()) { fprintf(stderr, "cannot create scratch directories\n"); return 3; }
 	return run(reset, step);
 }
